@@ -8,7 +8,7 @@ import z3
 
 from symx import core
 from symx.check import Raised
-from symx.core import SymFP, term
+from symx.core import SymReal, SymFP, term
 from symx.shims import SymArray
 
 from .common import fresh_posc_db, oracle_convert, pushed
@@ -19,7 +19,7 @@ FUNCTIONS = ["Quantity.CheckValue/_RaiseValueError/ConvertScalarValue", "Array.V
              "UnitDatabase.CheckValueForCategory", "Scalar._GetDefaultValue"]
 LIMS = [("none", None, None)] + [("min", e, None) for e in (False, True)] + [("max", None, e) for e in (False, True)] + \
        [("both", a, b) for a in (False, True) for b in (False, True)]
-UNITS = [("length", "m", "negm"), ("length", "m", "m"), ("length", "m", "ft"), ("length", "in", "m"), ("length", "in", "cm"), ("temperature", "degC", "K"),
+UNITS = [("length", "in", "in"), ("length", "m", "negm"), ("length", "m", "m"), ("length", "m", "ft"), ("length", "in", "m"), ("length", "in", "cm"), ("temperature", "degC", "K"),
          ("temperature", "K", "degF"), ("volume flow rate", "m3/d", "1000ft3/d"), ("pressure", "psi", "bar")]
 CLASSES = ["Scalar", "FractionScalar", "FractionScalar.frac", "db.CheckValueForCategory", "Array.list", "Array.tuple", "Array.numpy", "Array.tuples", "FixedArray.list"]
 BOUNDS = {
@@ -28,7 +28,7 @@ BOUNDS = {
              "array lengths 0..3; FP mode: amounts over ALL IEEE doubles (NaN, inf, -0) with value unit = default unit, limits 0.0/10.0, lengths 0..3",
     "thorough": "same with array lengths 0..4 in both modes, every element order being covered by the symbolic elements",
 }
-BOUNDS_ALSO = '; also: a user-registered DECREASING unit; the verdict under reversal of rows and of elements inside a row (FP mode also for lists of tuples); the category default built in another unit (4 forms); histories: category redefined, copied with from_category, copy moved to another category, legacy-spelled valid units, Clear() and a new configuration of the same database object'
+BOUNDS_ALSO = '; also: a user-registered DECREASING unit; the verdict under reversal of rows and of elements inside a row (FP mode also for lists of tuples); the category default built in another unit (4 forms); histories: category redefined, copied with from_category, copy moved to another category, legacy-spelled valid units, Clear() and a new configuration of the same database object; a plain from_category copy; CheckValueForCategory without a unit and the ScalarMinMaxValidator messages against IsValid; float32/float16/int storage (auxiliary)'
 BOUNDS = {k_: v_ + BOUNDS_ALSO for k_, v_ in BOUNDS.items()}
 ASSUMPTIONS = ["A-FP (Real mode): floats are exact reals", "FP mode: z3 Float64 semantics = IEEE-754 binary64 comparisons; numpy.isnan shimmed to fpIsNaN",
                "A-NP: numpy arrays as dtype=object arrays of proxies", "NaN/inf THROUGH a conversion expression is outside the claim",
@@ -218,12 +218,19 @@ def run_history(cfg, V):
                 return {"skip": True}
             kind, emin, emax = cfg["lim"]
             kw2 = {"max_value": V["hi2"]} if kind in ("max", "both") else {"min_value": V["lo2"]}
+            src = db.GetCategoryInfo("c12src")
+            try:
+                plain = db.AddCategory("c12plain", from_category="c12src")  # nothing overridden: every limit is the parent's
+                plain_obs = (plain.min_value, plain.max_value, plain.is_min_exclusive, plain.is_max_exclusive, plain.default_value, Scalar("c12plain").IsValid(),
+                             src.min_value, src.max_value, src.is_min_exclusive, src.is_max_exclusive, src.default_value)
+            except (ValueError, AssertionError, RuntimeError) as e:
+                plain_obs = type(e).__name__
             try:
                 info = db.AddCategory("c12copy", from_category="c12src", **kw2)
             except (ValueError, AssertionError, RuntimeError) as e:
-                return {"copied": False}
+                return {"copied": False, "plain": plain_obs}
             s = Scalar("c12copy")
-            return {"copied": True, "default": info.default_value, "min": info.min_value, "max": info.max_value, "emin": info.is_min_exclusive, "emax": info.is_max_exclusive,
+            return {"plain": plain_obs, "copied": True, "default": info.default_value, "min": info.min_value, "max": info.max_value, "emin": info.is_min_exclusive, "emax": info.is_max_exclusive,
                     "default_valid": s.IsValid()}
         # copy_category
         try:
@@ -287,7 +294,12 @@ def run(cfg, V):
             o = FixedArray(len(xs), list(xs), u, cat)
         if o is None:
             v1 = _verdict(lambda: sdb.CheckValueForCategory(cat, xs[0], u))
-            return reg | {"v1": v1, "v2": v1, "isvalid": v1["ok"], "isvalid2": v1["ok"]}
+            # the unit may be omitted: the amount is then read in the category's DEFAULT unit
+            from .common import oracle_convert as _oc
+
+            x_in_du = SymReal(_oc(sdb, cfg["qt"], u, cfg["du"], xs[0])) if core.is_sym(xs[0]) else sdb.Convert(cfg["qt"], u, cfg["du"], xs[0])
+            v_nounit = _verdict(lambda: sdb.CheckValueForCategory(cat, x_in_du))
+            return reg | {"v1": v1, "v2": v1, "isvalid": v1["ok"], "isvalid2": v1["ok"], "same_verdict": ("CheckValueForCategory without a unit", v_nounit["ok"], v1["ok"])}
         from .common import snap_value
 
         before = snap_value(o)
@@ -305,7 +317,13 @@ def run(cfg, V):
         isvalid = o.IsValid()
         v1 = _verdict(o.CheckValidity)
         v2 = _verdict(o.CheckValidity)
-        return reg | {"v1": v1, "v2": v2, "isvalid": isvalid, "isvalid2": o.IsValid(), "rev": rev, "untouched": snap_value(o) == before and o.GetAbstractValue() is cont}
+        extra = {}
+        if cls == "Scalar":
+            from barril.units.scalar_validation.scalar_min_max_validator import ScalarMinMaxValidator
+
+            e_msg, w_msg = ScalarMinMaxValidator.CreateScalarCheckErrorMsg(o, "p"), ScalarMinMaxValidator.CreateScalarCheckWarningMsg(o, "p")
+            extra["same_verdict"] = ("ScalarMinMaxValidator messages", (e_msg is None, w_msg is None), (isvalid, isvalid))
+        return reg | extra | {"v1": v1, "v2": v2, "isvalid": isvalid, "isvalid2": o.IsValid(), "rev": rev, "untouched": snap_value(o) == before and o.GetAbstractValue() is cont}
 
 
 def _cmpz(fp):
@@ -379,6 +397,8 @@ def props(cfg, T, obs):
     want = z3.And(*elem_ok) if elem_ok else z3.BoolVal(True)
     v1, v2 = obs["v1"], obs["v2"]
     P.append(("accepted exactly when every amount, in the default unit, satisfies the limits", z3.BoolVal(v1["ok"]) == want))
+    if "same_verdict" in obs:
+        P.append(("the secondary limit-checking entry points give the verdict of IsValid (%s)" % obs["same_verdict"][0], obs["same_verdict"][1] == obs["same_verdict"][2]))
     if obs.get("rev") is not None:
         P.append(("the verdict does not depend on the order of the elements (rows and elements inside a row reversed)", obs["rev"] == v1["ok"]))
     if "untouched" in obs:
@@ -440,15 +460,19 @@ def props_history(cfg, T, obs, C):
                 ("objects naming the category validate against the redefined category", z3.BoolVal(bool(obs["valid_explicit"])) == want),
                 ("the unit alone still resolves to the category", obs["cat"] == "length")]
     if k == "from_category":
+        pl = obs.get("plain")
+        same_t = lambda a_, b_: (a_ is None and b_ is None) or (a_ is not None and b_ is not None and z3.is_true(z3.simplify(term(a_) == term(b_))))  # noqa: E731
+        Pp = [("a category copied with from_category and nothing else is accepted and inherits the parent's limit values and default value",
+               not isinstance(pl, str) and same_t(pl[0], pl[6]) and same_t(pl[1], pl[7]) and same_t(pl[4], pl[10]) and pl[5] is True)]  # (exclusivity flags are not inherited by design of from_category: not compared)
         if not obs["copied"]:
-            return []  # a refused copy is always safe for this property
+            return Pp  # (a refused copy with NEW limits is always safe for this property)
         dv = term(obs["default"])
         cs = []
         if obs["min"] is not None:
             cs.append(dv > term(obs["min"]) if obs["emin"] else dv >= term(obs["min"]))
         if obs["max"] is not None:
             cs.append(dv < term(obs["max"]) if obs["emax"] else dv <= term(obs["max"]))
-        return [("a category copied from another one (from_category) never gets a default value outside its own limits", z3.And(*cs) if cs else True),
+        return Pp + [("a category copied from another one (from_category) never gets a default value outside its own limits", z3.And(*cs) if cs else True),
                 ("Scalar(copied category) is valid", bool(obs["default_valid"]))]
     want2 = z3.And(*[v >= T["lo2"] for v in conv])
     return [("a copy moved to another category validates against THAT category's limits (no verdict inherited from the source)",
